@@ -387,17 +387,8 @@ Section EvalR.
   Local Open Scope R_scope.
   Variable oracle : string -> R -> R -> option R.
   Hypothesis oracle_pow : forall a b, 0 < a -> oracle "np.float_power" a b = Some (Rpower a b).
-  Variable bigs : list string.
   Variable vars : list (string * R).
-  Notation ev := (evaluate op_table oracle bigs vars).
-
-  (* no builtin min/max over an operand that is an array of more than one element *)
-  Fixpoint arrays_ok (t : fnode R) : Prop :=
-    match t with
-    | FElem1 _ x => arrays_ok x
-    | FElem2 n l r => arrays_ok l /\ arrays_ok r /\ (in_names n ["min"; "max"] = true -> has_big bigs l || has_big bigs r = false)
-    | _ => True
-    end.
+  Notation ev := (evaluate op_table oracle vars).
 
   Lemma b2f_ind b : @b2f R NumR b = ind b.
   Proof. destruct b; unfold b2f, one, zero, ind; unR; cbn; reflexivity. Qed.
@@ -422,15 +413,15 @@ Section EvalR.
   Proof. destruct a, b; try discriminate; reflexivity. Qed.
   Lemma ap2_or a b : known a = true -> known b = true -> apply2 oracle "np.logical_or" a b = Ok (VB (@truth R NumR a || truth b)).
   Proof. destruct a, b; try discriminate; reflexivity. Qed.
-  Lemma eval_denotes_R : forall t ty, typeof true t = Some ty -> defined vars t -> arrays_ok t -> ev t = Ok (tyval ty (denote vars t)).
+  Lemma eval_denotes_R : forall t ty, typeof t = Some ty -> defined vars t -> ev t = Ok (tyval ty (denote vars t)).
   Proof.
-    induction t as [c|v|n|n x IH|n l IHl r IHr]; intros ty Hty Hdef Hbig.
+    induction t as [c|v|n|n x IH|n l IHl r IHr]; intros ty Hty Hdef.
     - cbn in Hty. injection Hty as <-. reflexivity.
     - cbn in Hty. injection Hty as <-. destruct Hdef as [Hne Hd]. cbn [evaluate denote tyval].
       destruct (String.eqb_spec v ""); [contradiction|]. destruct (assoc v vars); [reflexivity|contradiction].
     - cbn [typeof] in Hty. names n; [|discriminate]. injection Hty as <-. cbn [evaluate]. look. reflexivity.
-    - cbn [typeof in_names existsb] in Hty. destruct (typeof true x) as [tx|] eqn:Ex; [|discriminate].
-      specialize (IH tx eq_refl Hdef Hbig). names n; cbn in Hty; try discriminate.
+    - cbn [typeof in_names existsb] in Hty. destruct (typeof x) as [tx|] eqn:Ex; [|discriminate].
+      specialize (IH tx eq_refl Hdef). names n; cbn in Hty; try discriminate.
       all: cbn [evaluate]; look; cbn [en_arity en_method]; rewrite IH; cbn [bind].
       + (* ! *) injection Hty as <-. cbn [tyval]. replace (denote vars (FElem1 "!" x)) with (ind (negb (truthR (denote vars x)))) by reflexivity.
         now rewrite truthR_ind, ap1_not, truth_tyval by apply known_tyval.
@@ -440,13 +431,12 @@ Section EvalR.
       + destruct tx; cbn in Hty; try discriminate. injection Hty as <-. reflexivity.
       + destruct tx; cbn in Hty; try discriminate. injection Hty as <-. reflexivity.
       + destruct tx; cbn in Hty; try discriminate. injection Hty as <-. reflexivity.
-    - cbn [typeof in_names existsb] in Hty. destruct (typeof true l) as [tl|] eqn:El; [|discriminate].
-      destruct (typeof true r) as [tr|] eqn:Er; [|discriminate].
-      destruct Hdef as (Hdl & Hdr & Hpow). destruct Hbig as (Hbl & Hbr & Hmm).
-      specialize (IHl tl eq_refl Hdl Hbl). specialize (IHr tr eq_refl Hdr Hbr). names n; cbn in Hty.
+    - cbn [typeof in_names existsb] in Hty. destruct (typeof l) as [tl|] eqn:El; [|discriminate].
+      destruct (typeof r) as [tr|] eqn:Er; [|discriminate].
+      destruct Hdef as (Hdl & Hdr & Hpow).
+      specialize (IHl tl eq_refl Hdl). specialize (IHr tr eq_refl Hdr). names n; cbn in Hty.
       all: try (destruct tl, tr; cbn in Hty; discriminate).
       all: cbn [evaluate]; look; cbn [en_arity en_method]; rewrite IHl, IHr; cbn [bind].
-      all: try rewrite (Hmm eq_refl); rewrite ?andb_false_r; cbn [is_builtin_minmax String.eqb Ascii.eqb Bool.eqb orb andb].
       all: set (a := denote vars l) in *; set (b := denote vars r) in *.
       + (* and *) injection Hty as <-. cbn [tyval]. replace (denote vars (FElem2 "and" l r)) with (ind (truthR a && truthR b)) by reflexivity.
         now rewrite truthR_ind, ap2_and, !truth_tyval by apply known_tyval.
@@ -467,48 +457,43 @@ Section EvalR.
         unfold ask. rewrite oracle_pow by (apply Hpow; reflexivity). reflexivity.
       + (* min *) destruct tl, tr; cbn in Hty; try discriminate. injection Hty as <-. cbn [tyval].
         replace (denote vars (FElem2 "min" l r)) with (Rmin a b) by reflexivity.
-        replace (apply2 oracle "min" (VF a) (VF b)) with (Ok (if Rltb b a then VF b else VF a) : result (value R)) by reflexivity.
-        unfold Rmin. destruct (Rle_dec a b), (Rltb_spec b a); try reflexivity; do 2 f_equal; lra.
+        replace (apply2 oracle "np.minimum" (VF a) (VF b)) with (Ok (VF (if Rltb a b then a else b)) : result (value R)) by reflexivity.
+        unfold Rmin. destruct (Rle_dec a b), (Rltb_spec a b); try reflexivity; do 2 f_equal; lra.
       + (* max *) destruct tl, tr; cbn in Hty; try discriminate. injection Hty as <-. cbn [tyval].
         replace (denote vars (FElem2 "max" l r)) with (Rmax a b) by reflexivity.
-        replace (apply2 oracle "max" (VF a) (VF b)) with (Ok (if Rltb a b then VF b else VF a) : result (value R)) by reflexivity.
-        unfold Rmax. destruct (Rle_dec a b), (Rltb_spec a b); try reflexivity; do 2 f_equal; lra.
+        replace (apply2 oracle "np.maximum" (VF a) (VF b)) with (Ok (VF (if Rltb b a then a else b)) : result (value R)) by reflexivity.
+        unfold Rmax. destruct (Rle_dec a b), (Rltb_spec b a); try reflexivity; do 2 f_equal; lra.
       + (* gt *) destruct tl, tr; cbn in Hty; try discriminate. injection Hty as <-. cbn [tyval].
         replace (denote vars (FElem2 "gt" l r)) with (ind (Rltb b a)) by reflexivity. rewrite <- b2f_ind. reflexivity.
       + (* lt *) destruct tl, tr; cbn in Hty; try discriminate. injection Hty as <-. cbn [tyval].
         replace (denote vars (FElem2 "lt" l r)) with (ind (Rltb a b)) by reflexivity. rewrite <- b2f_ind. reflexivity.
       + (* eq *) destruct tl, tr; cbn in Hty; try discriminate. injection Hty as <-. cbn [tyval].
-        replace (denote vars (FElem2 "eq" l r)) with (ind (Reqb a b)) by reflexivity. rewrite truthR_ind.
-        replace (apply2 oracle "Op.eq" (VF a) (VF b)) with (Ok (VB (Reqb a b || false)) : result (value R)) by reflexivity.
+        replace (denote vars (FElem2 "eq" l r)) with (ind (Reqb a b)) by reflexivity. rewrite <- b2f_ind.
+        replace (apply2 oracle "Op.eq" (VF a) (VF b)) with (Ok (VF (b2f (Reqb a b || false))) : result (value R)) by reflexivity.
         now rewrite orb_false_r.
       + (* neq *) destruct tl, tr; cbn in Hty; try discriminate. injection Hty as <-. cbn [tyval].
-        replace (denote vars (FElem2 "neq" l r)) with (ind (negb (Reqb a b))) by reflexivity. rewrite truthR_ind.
-        replace (apply2 oracle "Op.neq" (VF a) (VF b)) with (Ok (VB (negb (Reqb a b || false))) : result (value R)) by reflexivity.
+        replace (denote vars (FElem2 "neq" l r)) with (ind (negb (Reqb a b))) by reflexivity. rewrite <- b2f_ind.
+        replace (apply2 oracle "Op.neq" (VF a) (VF b)) with (Ok (VF (b2f (negb (Reqb a b || false)))) : result (value R)) by reflexivity.
         now rewrite orb_false_r.
       + (* ge *) destruct tl, tr; cbn in Hty; try discriminate. injection Hty as <-. cbn [tyval].
-        replace (denote vars (FElem2 "ge" l r)) with (ind (Rleb b a)) by reflexivity. rewrite truthR_ind.
-        replace (apply2 oracle "Op.ge" (VF a) (VF b)) with (Ok (VB (Rleb b a || (Reqb a b || false))) : result (value R)) by reflexivity.
-        do 2 f_equal. destruct (Rleb_spec b a), (Reqb_spec a b); cbn; try reflexivity; lra.
+        replace (denote vars (FElem2 "ge" l r)) with (ind (Rleb b a)) by reflexivity. rewrite <- b2f_ind.
+        replace (apply2 oracle "Op.ge" (VF a) (VF b)) with (Ok (VF (b2f (Rleb b a || (Reqb a b || false)))) : result (value R)) by reflexivity.
+        do 3 f_equal. destruct (Rleb_spec b a), (Reqb_spec a b); cbn; try reflexivity; lra.
       + (* le *) destruct tl, tr; cbn in Hty; try discriminate. injection Hty as <-. cbn [tyval].
-        replace (denote vars (FElem2 "le" l r)) with (ind (Rleb a b)) by reflexivity. rewrite truthR_ind.
-        replace (apply2 oracle "Op.le" (VF a) (VF b)) with (Ok (VB (Rleb a b || (Reqb a b || false))) : result (value R)) by reflexivity.
-        do 2 f_equal. destruct (Rleb_spec a b), (Reqb_spec a b); cbn; try reflexivity; lra.
+        replace (denote vars (FElem2 "le" l r)) with (ind (Rleb a b)) by reflexivity. rewrite <- b2f_ind.
+        replace (apply2 oracle "Op.le" (VF a) (VF b)) with (Ok (VF (b2f (Rleb a b || (Reqb a b || false)))) : result (value R)) by reflexivity.
+        do 3 f_equal. destruct (Rleb_spec a b), (Reqb_spec a b); cbn; try reflexivity; lra.
   Qed.
 End EvalR.
 
-(* ===================================================== 6. corollaries and refutations *)
-Lemma has_big_nil {T} (t : fnode T) : has_big [] t = false.
-Proof. induction t; cbn; auto. now rewrite IHt1, IHt2. Qed.
-Lemma arrays_ok_nil t : arrays_ok [] t.
-Proof. induction t; cbn; auto. repeat split; auto. intros _. now rewrite !has_big_nil. Qed.
-
-(* array operands: the rows are evaluated one by one *)
-Lemma eval_rows_denotes oracle (HO : forall a b, (0 < a)%R -> oracle "np.float_power" a b = Some (Rpower a b)) bigs rows t :
-  typeof true t = Some TyN -> arrays_ok bigs t -> Forall (fun vars => defined vars t) rows ->
-  evaluate_rows op_table oracle bigs rows t = Ok (map (fun vars => VF (denote vars t)) rows).
+(* ===================================================== 6. corollaries *)
+(* array operands: the rows are evaluated one by one, min/max included *)
+Lemma eval_rows_denotes oracle (HO : forall a b, (0 < a)%R -> oracle "np.float_power" a b = Some (Rpower a b)) rows t :
+  typeof t = Some TyN -> Forall (fun vars => defined vars t) rows ->
+  evaluate_rows op_table oracle rows t = Ok (map (fun vars => VF (denote vars t)) rows).
 Proof.
-  intros Hty Hb. induction 1 as [|vars rows Hd _ IH]; cbn; [reflexivity|].
-  rewrite (eval_denotes_R oracle HO bigs vars t TyN Hty Hd Hb), IH. reflexivity.
+  intros Hty. induction 1 as [|vars rows Hd _ IH]; cbn; [reflexivity|].
+  rewrite (eval_denotes_R oracle HO vars t TyN Hty Hd), IH. reflexivity.
 Qed.
 
 Local Open Scope R_scope.
@@ -516,16 +501,16 @@ Definition pnR : string -> option R := number_of [].
 Definition parseR (s : string) : result (fnode R) := parse_text op_table pnR "and" "or" s.
 (* Function.create(name, s).evaluate(vars) on scalars *)
 Definition run_formula (oracle : string -> R -> R -> option R) (vars : list (string * R)) (s : string) : result (value R) :=
-  match parseR s with Ok t => evaluate op_table oracle [] vars t | Err e => Err e end.
+  match parseR s with Ok t => evaluate op_table oracle vars t | Err e => Err e end.
 Definition pow_oracle (oracle : string -> R -> R -> option R) : Prop :=
   forall a b, 0 < a -> oracle "np.float_power" a b = Some (Rpower a b).
 Definition xyz (x y z : R) : list (string * R) := [("x", x); ("y", y); ("z", z)].
 
 Ltac by_denotation HO tree tyy :=
   unfold run_formula; change (parseR _) with (Ok tree : result (fnode R)); cbv beta iota;
-  rewrite (eval_denotes_R _ HO [] _ tree tyy eq_refl); [|
+  rewrite (eval_denotes_R _ HO _ tree tyy eq_refl); [|
     cbn [defined]; unfold xyz; cbn [assoc String.eqb Ascii.eqb Bool.eqb];
-    repeat split; try discriminate; try (intros _; assumption) | apply arrays_ok_nil].
+    repeat split; try discriminate; try (intros _; assumption)].
 
 Section Corollaries.
   Variable oracle : string -> R -> R -> option R.
@@ -650,60 +635,46 @@ Section TokenCorollaries.
     apply (P_bin op_table pn 0 "*" ("*", false, "np.multiply", 2%nat, 80, -1) _ _ ["("; "max"; "("; a; ","; "("; b; ")"; ")"; ")"] ["pi"]);
       try (split; reflexivity); try reflexivity; try (cbn; lia).
     - apply (P_paren op_table pn _ _ ["max"; "("; a; ","; "("; b; ")"; ")"]).
-      apply (P_call2 op_table pn 0 "max" ("max", true, "max", 2%nat, 100, -1) _ _ [a] ["("; b; ")"]); try (split; reflexivity); try reflexivity.
+      apply (P_call2 op_table pn 0 "max" ("max", true, "np.maximum", 2%nat, 100, -1) _ _ [a] ["("; b; ")"]); try (split; reflexivity); try reflexivity.
       + apply Prints_leaf, Ha.
       + apply (P_paren op_table pn _ _ [b]). apply Prints_leaf, Hb.
     - apply (P_const op_table pn _ "pi" ("pi", true, "lambda: np.pi", 0%nat, 100, -1)); try (split; reflexivity); try reflexivity. cbn. lia.
   Qed.
 End TokenCorollaries.
 
-(* ---- F7: the documented reading of eq/neq/ge/le as 0/1 numbers is FALSE of the implementation *)
-Definition eval_denotes_documented : Prop :=
-  forall oracle, pow_oracle oracle -> forall vars t ty, typeof false t = Some ty -> defined vars t ->
-    exists v, evaluate op_table oracle [] vars t = Ok v /\ value_num v = Some (denote vars t).
-
+(* ---- the relational functions are 0/1 numbers usable in arithmetic; min/max are elementwise *)
 Definition total_oracle : string -> R -> R -> option R := fun _ a b => Some (Rpower a b).
 
-(* eq(x,1)+eq(y,1) at x = y = 1: numpy adds two booleans with logical-or: True (= 1), not 2 *)
-Lemma indicator_sum_saturates oracle :
-  run_formula oracle [("x", 1); ("y", 1)] "eq(x,1)+eq(y,1)" = Ok (VB true) /\
-  denote [("x", 1); ("y", 1)] (FElem2 "+" (FElem2 "eq" (FVar "x") (FConst 1)) (FElem2 "eq" (FVar "y") (FConst 1))) = 2.
+Section Indicators.
+  Variable oracle : string -> R -> R -> option R.
+  Hypothesis HO : pow_oracle oracle.
+  Variables x y z : R.
+  Notation run := (run_formula oracle (xyz x y z)).
+
+  Lemma indicators_add : run "eq(x,1)+eq(y,1)" = Ok (VF (ind (Reqb x (Rlit 1 0)) + ind (Reqb y (Rlit 1 0)))) /\
+                         run "ge(x,y)-le(x,y)" = Ok (VF (ind (Rleb y x) - ind (Rleb x y))) /\
+                         run ".-neq(x,y)*z" = Ok (VF (- ind (negb (Reqb x y)) * z)).
+  Proof.
+    split; [|split].
+    - by_denotation HO (FElem2 "+" (FElem2 "eq" (FVar "x") (FConst (Rlit 1 0))) (FElem2 "eq" (FVar "y") (FConst (Rlit 1 0))) : fnode R) TyN. reflexivity.
+    - by_denotation HO (FElem2 "-" (FElem2 "ge" (FVar "x") (FVar "y")) (FElem2 "le" (FVar "x") (FVar "y")) : fnode R) TyN. reflexivity.
+    - by_denotation HO (FElem2 "*" (FElem1 ".-" (FElem2 "neq" (FVar "x") (FVar "y"))) (FVar "z") : fnode R) TyN. reflexivity.
+  Qed.
+End Indicators.
+
+(* eq(x,1)+eq(y,1) at x = y = 1 is 2 *)
+Lemma indicator_sum_is_two oracle : pow_oracle oracle -> run_formula oracle (xyz 1 1 0) "eq(x,1)+eq(y,1)" = Ok (VF 2).
 Proof.
-  split.
-  - unfold run_formula.
-    change (parseR _) with (Ok (FElem2 "+" (FElem2 "eq" (FVar "x") (FConst (Rlit 1 0))) (FElem2 "eq" (FVar "y") (FConst (Rlit 1 0)))) : result (fnode R)).
-    cbv beta iota.
-    change (evaluate _ _ _ _ _) with (Ok (VB ((Reqb 1 (Rlit 1 0) || false) || (Reqb 1 (Rlit 1 0) || false))) : result (value R)).
-    destruct (Reqb_spec 1 (Rlit 1 0)) as [_|N]; [reflexivity|]. exfalso. apply N. unfold Rlit. cbn. lra.
-  - change (denote _ _) with (ind (Reqb 1 1) + ind (Reqb 1 1)). destruct (Reqb_spec 1 1); unfold ind; lra.
+  intros HO. rewrite (proj1 (indicators_add oracle HO 1 1 0)). do 2 f_equal.
+  assert (E : Rlit 1 0 = 1) by (unfold Rlit; cbn; lra). rewrite E.
+  destruct (Reqb_spec 1 1) as [_|N]; [unfold ind; lra|exfalso; apply N; reflexivity].
 Qed.
 
-Theorem eval_denotes_documented_refuted : ~ eval_denotes_documented.
+(* min/max on array operands: elementwise *)
+Lemma minmax_elementwise oracle (HO : pow_oracle oracle) rows :
+  Forall (fun vars => defined vars (FElem2 "min" (FVar "x") (FElem2 "max" (FVar "y") (FConst 0)) : fnode R)) rows ->
+  evaluate_rows op_table oracle rows (FElem2 "min" (FVar "x") (FElem2 "max" (FVar "y") (FConst 0))) =
+  Ok (map (fun vars => VF (Rmin (denote vars (FVar "x")) (Rmax (denote vars (FVar "y")) 0))) rows).
 Proof.
-  intros H.
-  destruct (H total_oracle (fun a b _ => eq_refl) [("x", 1); ("y", 1)]
-              (FElem2 "+" (FElem2 "eq" (FVar "x") (FConst 1)) (FElem2 "eq" (FVar "y") (FConst 1))) TyN eq_refl) as (v & Hv & Hn).
-  - cbn. repeat split; try discriminate.
-  - change (evaluate _ _ _ _ _) with (Ok (VB ((Reqb 1 1 || false) || (Reqb 1 1 || false))) : result (value R)) in Hv.
-    injection Hv as <-. rewrite (proj2 (indicator_sum_saturates total_oracle)) in Hn.
-    destruct (Reqb_spec 1 1) as [_|N]; [|lra]. cbn in Hn. injection Hn as Hn. unfold one in Hn. unR. cbn in Hn. lra.
-Qed.
-
-(* eq(x,1)-eq(y,1): numpy refuses to subtract booleans — TypeError, for every x and y *)
-Lemma indicator_difference_crashes oracle x y : run_formula oracle [("x", x); ("y", y)] "eq(x,1)-eq(y,1)" = Err EInternal.
-Proof. reflexivity. Qed.
-
-(* .-ge(x,y): TypeError as well *)
-Lemma indicator_negation_crashes oracle x y : run_formula oracle [("x", x); ("y", y)] ".-ge(x,y)" = Err EInternal.
-Proof. reflexivity. Qed.
-
-(* min/max are the Python builtins: an array operand with more than one element raises ValueError *)
-Lemma minmax_array_refuted oracle a b c :
-  evaluate_rows op_table oracle ["x"] [[("x", a)]; [("x", b)]] (FElem2 "min" (FVar "x") (FConst c)) = Err EValue /\
-  evaluate_rows op_table oracle ["x"] [[("x", a)]; [("x", b)]] (FElem2 "max" (FConst c) (FVar "x")) = Err EValue /\
-  evaluate_rows op_table oracle [] [[("x", a)]] (FElem2 "min" (FVar "x") (FConst c)) = Ok [VF (Rmin a c)].
-Proof.
-  repeat split; try reflexivity.
-  change (evaluate_rows _ _ _ _ _) with (Ok [if Rltb c a then VF c else VF a] : result (list (value R))).
-  unfold Rmin. destruct (Rle_dec a c), (Rltb_spec c a); try reflexivity; do 3 f_equal; lra.
+  intros H. rewrite (eval_rows_denotes oracle HO rows (FElem2 "min" (FVar "x") (FElem2 "max" (FVar "y") (FConst 0))) eq_refl H). reflexivity.
 Qed.
